@@ -98,6 +98,7 @@ package apk
 //@
 //@ func (*merkleHasher).Finish
 //@   property C05
+//@   standalone
 //@   requires h != nil && inz != nil && hasherOK(h) && 0 <= inz.DirLoc
 //@   ghost flushes int = 0
 //@   ghost writes int = 0
